@@ -293,8 +293,13 @@ func runPrepared(p *prepared) (res *Result) {
 }
 
 func (sp *Spec) settleMs() int {
-	// retries sleep 10 ms each; allow for them plus scheduling slack
-	return 60 + 14*(sp.NumRetries+3)
+	// retries sleep 10 ms each and may each wait for a per-try time-out; allow for them plus scheduling slack
+	n := sp.NumRetries
+	if n < 3 {
+		n = 3
+	}
+	_, tms := sp.effectiveTimeouts()
+	return 60 + (14+tms)*(n+1)
 }
 
 func (h *hist) up(k int) *upStream {
